@@ -123,13 +123,15 @@ CHECKS['C05'] = {
     'jobs': {'quick': [J('c05_tcp.cpp', ['LEN=5', 'LOSS=1', 'DROPS=2', 'DIR=0'], wall=280, markers=(1, 2, 3, 5)),
                        J('c05_tcp.cpp', ['LEN=4', 'LOSS=0', 'DIR=0', 'MOVES'], wall=200, markers=(1, 2, 5)),
                        J('c05_tcp.cpp', ['LEN=4', 'LOSS=0', 'DIR=1'], wall=120, markers=(1, 2, 5)),
-                       J('c05_tcp.cpp', ['LEN=4', 'LOSS=1', 'DROPS=1', 'DIR=0', 'REUSE=1'], wall=200, markers=(1, 4))],
+                       J('c05_tcp.cpp', ['LEN=4', 'LOSS=1', 'DROPS=1', 'DIR=0', 'REUSE=1', 'FARDROP'], wall=200, markers=(1, 4))],
              'thorough': [J('c05_tcp.cpp', ['LEN=8', 'LOSS=1', 'DROPS=4', 'DIR=0'], wall=1700, markers=(1, 2, 3, 5)),
                           J('c05_tcp.cpp', ['LEN=6', 'LOSS=1', 'DROPS=3', 'DIR=1', 'MTU=3', 'MOVES'], wall=1700, markers=(1, 2, 5)),
-                          J('c05_tcp.cpp', ['LEN=6', 'LOSS=1', 'DROPS=2', 'DIR=0', 'REUSE=1'], wall=900, markers=(1, 4))]},
+                          J('c05_tcp.cpp', ['LEN=6', 'LOSS=1', 'DROPS=2', 'DIR=0', 'REUSE=1'], wall=900, markers=(1, 4)),
+                          J('c05_tcp.cpp', ['LEN=6', 'LOSS=1', 'DROPS=3', 'DIR=0', 'FARDROP'], wall=1700, markers=(1, 2, 3, 5)),
+                          J('c05_tcp.cpp', ['LEN=6', 'LOSS=1', 'DROPS=2', 'DIR=0', 'REUSE=1', 'FARDROP'], wall=900, markers=(1, 4))]},
     'bounds': {'quick': 'one connection, 5 symbolic payload bytes, path MTU 3 (2-3 segments), write chunk in {1, MTU, MTU+1, all}, 1- or 2-buffer gather writes, read buffers {1}, {2}, {64}, {2+3} and {LEN+8} (scatter reads, one ending exactly at the data), reader armed at once or only after everything (incl. end-of-file) is queued, '
                         'async_read_some or wait+read_some, writer closes or not; the first 2 payload segments are each passed / dropped / held back (reordered) by a hop on the route (9 fault patterns); '
-                        'lossless with the connector / the accepted socket moved after establishment or the reader moved after its first read; reverse direction lossless; accepted socket object closed with unread data (first segment passed/dropped/held) and reused for a second two-segment connection',
+                        'lossless with the connector / the accepted socket moved after establishment or the reader moved after its first read; reverse direction lossless; accepted socket object closed with unread data (first segment passed/dropped/held by a hop behind the network queue, so that later segments are already under way when the drop is reported) and reused for a second two-segment connection',
                'thorough': '8 bytes with the first 4 segments faulted (81 patterns), reverse direction with faults, reuse with faults'},
     'outside': ['longer streams, more than 4 faulted segments', 'routes without any queue hop between the nodes (handshake would complete inside async_connect; unsupported by the library)',
                 'simultaneous payload in both directions'],
